@@ -112,7 +112,8 @@ def run(ctx):
     # (2) traces of the real wallet with the tree projection
     plans = [("stale", ["stale-frontier-scenario"]),
              ("trees", ["tree-scenarios"] + (["all"] if big else [])),
-             ("retention", ["retention-scenarios"] + (["all"] if big else []))]
+             ("retention", ["retention-scenarios"] + (["all"] if big else [])),
+             ("shards", ["shard-scenarios", "12" if big else "3"])]
     if big:
         plans += [("base%d" % i, ["14", "80"]) for i in range(3)] + [("ironwood%d" % i, ["14", "80", "ironwood"]) for i in range(3)]
     else:
@@ -140,7 +141,8 @@ def run(ctx):
                      "two known findings are excused while listed open in known_findings.json and reported on use",
                      "checkpoint alignment is claimed modulo pruning lag (a height present in one pool and absent in another lies "
                      "below the other pool's oldest unretained checkpoint)",
-                     "subtree-root insertion (put_*_subtree_roots) and shard boundaries are not driven yet"])
+                     "shard boundaries: the wallet is born 2-3 commitments below the end of a 2^16-leaf shard of a random prior tree "
+                     "(incrementalmerkletree's random frontier helper) and receives the roots of completed shards"])
 
 
 def replay(ctx, path):
